@@ -195,10 +195,12 @@ func (f *Frame) execInstr(b *ssa.BasicBlock, in ssa.Instruction, o *blockOut) bo
 		}
 		f.safety("makeslice", x, And(Le(IntLit(0), ln.T), Le(ln.T, cp.T), Le(Mul(cp.T, IntLit(esz)), BigLit("140737488355328"))), g, "make([]T, len, cap): 0 <= len <= cap and cap*sizeof(T) <= 2^47 (runtime panics otherwise)")
 		arr := vc.newRef("mkslice")
+		vc.markAlloc(st, arr, nil)
 		vc.zeroElems(st, arr, et)
 		f.env[x] = Val{K: KSlice, T: arr, Off: IntLit(0), Len: ln.T, Cap: cp.T, Typ: x.Type()}
 	case *ssa.MakeMap:
 		r := vc.newRef("mkmap")
+		vc.markAlloc(st, r, nil)
 		m := Val{K: KMap, T: r, Typ: x.Type()}
 		mt := x.Type().Underlying().(*types.Map)
 		dn := vc.mapDomArrName(x.Type())
@@ -471,6 +473,9 @@ func (vc *VC) markAlloc(st *State, r Term, t types.Type) {
 	a := vc.heapGet(st, "G.alloc", ArrSort(SInt, SBool))
 	vc.assumeRaw(Not(Select(a, r)))
 	vc.heapSet(st, "G.alloc", vc.nameTerm(Store(a, r, True), "G.alloc"))
+	if t == nil {
+		return
+	}
 	// struct-typed fields embedded in a fresh object are fresh objects too
 	if s, ok := structOf(t); ok {
 		skey := typeKey(t)
